@@ -371,6 +371,30 @@ def desugar_for_ranges(b, ordinals, g, where):
                                "new": (new_head + "{" + body_intro).strip(),
                                "why": "for over `slice.iter().rev()` (no Verus support for the Rev adapter) -> index/while loop from the last element to the first"})
             continue
+        mflat = re.match(r"^([A-Za-z_][A-Za-z0-9_.]*)\.iter\(\)\.flat_map\(\s*\|\s*([a-z_][a-z_0-9]*)\s*\|\s*\2\.iter\(\)\s*\)$", rng, re.S)
+        if split is None and mflat:
+            # R37: `for x in GROUPS.iter().flat_map(|e| e.iter()) { BODY }` (GROUPS: an array/slice of slices) =>
+            # `{ let verif_vec_K = &GROUPS; let mut verif_group_K: usize = 0; let mut verif_next_K: usize = 0;
+            #    while verif_group_K < verif_vec_K.len() { if verif_next_K >= verif_vec_K[verif_group_K].len()
+            #    { verif_group_K += 1; verif_next_K = 0; continue; } let x = &verif_vec_K[verif_group_K][verif_next_K]; verif_next_K += 1; BODY } }`
+            # ONE loop (so `break`/`continue` in BODY keep their meaning and loop ordinals are unchanged): the elements of
+            # every group in order, the groups in order
+            vec = mflat.group(1)
+            btoks = rustlex.lex(b)
+            bpairs = rustlex.match_brackets(btoks)
+            close = None
+            for o, c in bpairs.items():
+                if btoks[o].start == bpos:
+                    close = btoks[c].start
+            new_head = ("{ let verif_vec_%d = &%s; let mut verif_group_%d: usize = 0; let mut verif_next_%d: usize = 0;\n        while verif_group_%d < verif_vec_%d.len()\n        "
+                        % (k, vec, k, k, k, k))
+            body_intro = (" if verif_next_%d >= verif_vec_%d[verif_group_%d].len() { verif_group_%d += 1; verif_next_%d = 0; continue; }"
+                          " let %s = &verif_vec_%d[verif_group_%d][verif_next_%d]; verif_next_%d += 1;" % (k, k, k, k, k, var, k, k, k, k))
+            b = b[:kwpos] + new_head + "{" + body_intro + b[bpos + 1:close + 1] + " }" + b[close + 1:]
+            g.rewrites.append({"item": where, "rule": "R37", "loop": k, "old": header.strip(),
+                               "new": (new_head + "{" + body_intro).strip(),
+                               "why": "for over `groups.iter().flat_map(|e| e.iter())` (no Verus support for FlatMap) -> one index/while loop over (group, element) pairs: groups in order, each group's elements in order"})
+            continue
         mval = re.match(r"^(verif_[a-z_0-9]+\(.*\)|[a-z_][a-z_0-9]*)$", rng, re.S)
         if split is None and mval and not re.match(r"^&", rng):
             # R21 (by value): `for x in VEC_EXPR { BODY }` over a Vec of Copy elements (a wrapper call returning a Vec, or a
